@@ -287,6 +287,7 @@ func (g *gen) writeExprUnaryOp(b *buffer, n *a.Expr, depth uint32) error {
 
 func (g *gen) writeExprBinaryOp(b *buffer, n *a.Expr, depth uint32) error {
 	opName, lhsCast, overallCast := "", false, n.MType().IsSmallInteger()
+	lhsCastU32 := false
 
 	op := n.Operator()
 	switch op {
@@ -310,6 +311,14 @@ func (g *gen) writeExprBinaryOp(b *buffer, n *a.Expr, depth uint32) error {
 
 	case t.IDXBinaryTildeModPlus, t.IDXBinaryTildeModMinus, t.IDXBinaryTildeModStar:
 		overallCast = true
+		// In C, multiplying two uint16_t values promotes them to (signed) int,
+		// and 0xFFFF * 0xFFFF overflows that, which is undefined behavior. A
+		// constant operand is written with a "u" suffix, so that multiplication
+		// is already unsigned.
+		if (op == t.IDXBinaryTildeModStar) && (n.MType().QID() == t.QID{t.IDBase, t.IDU16}) &&
+			(n.RHS().AsExpr().ConstValue() == nil) {
+			lhsCastU32 = true
+		}
 
 	case t.IDXBinaryTildeModShiftL:
 		overallCast = true
@@ -337,7 +346,9 @@ func (g *gen) writeExprBinaryOp(b *buffer, n *a.Expr, depth uint32) error {
 		b.writes(")(")
 	}
 
-	if lhsCast {
+	if lhsCastU32 {
+		b.writes("((uint32_t)(")
+	} else if lhsCast {
 		b.writes("((")
 		if err := g.writeCTypeName(b, n.LHS().AsExpr().MType(), "", ""); err != nil {
 			return err
@@ -347,7 +358,7 @@ func (g *gen) writeExprBinaryOp(b *buffer, n *a.Expr, depth uint32) error {
 	if err := g.writeExprRepr(b, n.LHS().AsExpr(), depth); err != nil {
 		return err
 	}
-	if lhsCast {
+	if lhsCastU32 || lhsCast {
 		b.writes("))")
 	}
 
